@@ -96,7 +96,7 @@ func init() {
 		w.start(1)
 		w.start(0)
 		est := false
-		for i := 0; i < 5000 && !est; i++ {
+		for i := 0; i < 30000 && !est; i++ {
 			time.Sleep(time.Millisecond)
 			w.mu.Lock()
 			est = w.ep[0].connRet && w.ep[1].connRet && w.ep[0].connErr == nil && w.ep[1].connErr == nil
@@ -171,7 +171,11 @@ func init() {
 				fmt.Printf("VF-DEADLOCK scenario=%s\n", label)
 				return // the wedged associations are left behind; the process ends with this mode
 			}
-			t.Fatalf("%s: no progress after the episode but no certified lock cycle (mutex-blocked: %v)", label, a)
+			// no certificate: the machine may simply be starved; give it much longer before calling the driver dead
+			if !send(3, 60*time.Second) {
+				t.Fatalf("%s: no progress after the episode but no certified lock cycle (mutex-blocked: %v)", label, a)
+			}
+			tr.emit(map[string]any{"ev": "note", "what": "association alive after the episode (slow)", "t": w.now()})
 		}
 		w.ep[0].conn.Close()
 		w.ep[1].conn.Close()
